@@ -24,7 +24,8 @@ UNIT = {
     'classes': {
         'array_plus_grid': {'file': A, 'bases': ['memory_manager', 'hole_manager'], 'base_files': {'memory_manager': M, 'hole_manager': H},
                             'fields': ['data', 'data_alloc', 'last_used_slot', 'MSB', 'medium_hole_list', 'grid_bottom', 'grid_top', 'grid_current',
-                                       'max_request', 'huge_holes', 'chunk_base']},
+                                       'max_request', 'huge_holes', 'chunk_base', 'num_small_holes', 'num_medium_holes', 'num_grid_holes', 'num_huge_holes',
+                                       'num_small_slots', 'num_medium_slots', 'num_grid_slots', 'num_huge_slots']},
     },
     # the derived class reaches the hole_manager<INT> primitives through one-line forwarding wrappers
     # (array_grid.cc:161-174) and explicit qualification; both are flattened onto the base functions
@@ -55,7 +56,9 @@ UNIT = {
         hf('readSlot'), hf('refSlot'), hf('max_handle'), hf('recycleHoleInArray'),
         hf('allocateFromArray', where='out'), hf('resize', where='out'),
         af('isSmallHole'), af('isLargeHole'), af('Prev'), af('Next'), af('setPrev'), af('setNext'),
+        af('isIndexHole'), af('Up'), af('Down'), af('setUp'), af('setDown'), af('setNonIndex'),
         af('requestChunk', where='out', loops=1), af('recycleChunk', where='out'),
+        af('stopTrackingHole', where='out', cname='array_plus_grid__stopTrackingHole_real'),
     ],
     'stubs': [
         'array_plus_grid::stopTrackingHole / startTrackingHole / moveCurrentToRow: the grid / medium-list / huge-list index of holes. Assumed: they write only pointer slots 1..4 inside holes and the list heads, never the boundary tags, never a slot of a live chunk; stopTrackingHole(h) requires h to be a tracked hole with matching tags',
@@ -73,6 +76,7 @@ UNIT = {
         job('ag_allocateFromArray', 'array_plus_grid__allocateFromArray', ST + ['array_plus_grid__resize']),
         job('ag_resize', 'array_plus_grid__resize', ST),
         job('ag_recycleChunk', 'array_plus_grid__recycleChunk', ST + TR),
+        job('ag_stopTrackingHole', 'array_plus_grid__stopTrackingHole_real', ST),
         # ag_requestChunk: contract drafted in spec.h; the grid / medium-list paths need shape facts about Next(grid_current) and the
         # leftover split that are not discharged yet - not claimed
     ],
